@@ -39,8 +39,8 @@ fn get_default_stub<T, F>(mut f: F) -> T where F: FnMut(&Dispatch) -> T {
 fn current_stub() -> LevelFilter { tf(CUR_MAX.load(SeqCst) as u8) }
 fn install(d: &Dispatch, max: u8) { CUR_DISPATCH.store(d as *const Dispatch as usize, SeqCst); CUR_MAX.store(max as usize, SeqCst); }
 use std::sync::Arc;
-struct St { enabled_calls: AtomicUsize, events: AtomicUsize, meta_level_ok: AtomicUsize, meta_target_ok: AtomicUsize, event_level: AtomicUsize, want_level: AtomicUsize, norm: AtomicUsize }
-fn st(want: u8) -> Arc<St> { Arc::new(St { enabled_calls: AtomicUsize::new(0), events: AtomicUsize::new(0), meta_level_ok: AtomicUsize::new(1), meta_target_ok: AtomicUsize::new(1), event_level: AtomicUsize::new(0), want_level: AtomicUsize::new(want as usize), norm: AtomicUsize::new(0) }) }
+struct St { enabled_calls: AtomicUsize, events: AtomicUsize, meta_level_ok: AtomicUsize, meta_target_ok: AtomicUsize, event_level: AtomicUsize, want_level: AtomicUsize, norm: AtomicUsize, have: AtomicUsize }
+fn st(want: u8) -> Arc<St> { Arc::new(St { enabled_calls: AtomicUsize::new(0), events: AtomicUsize::new(0), meta_level_ok: AtomicUsize::new(1), meta_target_ok: AtomicUsize::new(1), event_level: AtomicUsize::new(0), want_level: AtomicUsize::new(want as usize), norm: AtomicUsize::new(0), have: AtomicUsize::new(7) }) }
 const TARGET: &str = "my_crate::module";
 const FILE: &str = "src/f.rs"; const MODP: &str = "my_crate::m";
 struct Rec { accept: bool, s: Arc<St> }
@@ -63,9 +63,11 @@ impl Collect for Rec {
             use crate::NormalizeEvent;
             let ok = match e.normalized_metadata() {
                 Some(m) => e.is_log() && m.target().as_ptr() == TARGET.as_ptr() && m.target().len() == TARGET.len()
-                    && *m.level() == tl(self.s.want_level.load(SeqCst) as u8) && m.line() == Some(7)
-                    && m.file().map(|f| (f.as_ptr(), f.len())) == Some((FILE.as_ptr(), FILE.len()))
-                    && m.module_path().map(|f| (f.as_ptr(), f.len())) == Some((MODP.as_ptr(), MODP.len())),
+                    && *m.level() == tl(self.s.want_level.load(SeqCst) as u8)
+                    && { let have = self.s.have.load(SeqCst);   // bit 0: file, bit 1: line, bit 2: module path - each part independently present or absent
+                         m.line() == (if have & 2 != 0 { Some(7) } else { None })
+                         && m.file().map(|f| (f.as_ptr(), f.len())) == (if have & 1 != 0 { Some((FILE.as_ptr(), FILE.len())) } else { None })
+                         && m.module_path().map(|f| (f.as_ptr(), f.len())) == (if have & 4 != 0 { Some((MODP.as_ptr(), MODP.len())) } else { None }) },
                 None => false,
             };
             self.s.norm.store(if ok { 1 } else { 2 }, SeqCst);
@@ -174,10 +176,12 @@ fn c18_format_trace_emits_one_event_iff_collector_accepts() {
 fn c18_normalized_metadata_names_the_records_own_origin() {
     let lvl: u8 = nd(); kani::assume(lvl >= 1 && lvl <= 5);
     let s = st(lvl); s.norm.store(9, SeqCst);
+    let have: usize = nd(); kani::assume(have < 8); s.have.store(have, SeqCst);
     let d = Dispatch::__verif_unregistered(Rec { accept: true, s: s.clone() });
     install(&d, 5);
-    let rec = log::Record::builder().args(format_args!("hello")).level(ll(lvl)).target(TARGET).file(Some(FILE)).line(Some(7)).module_path(Some(MODP)).build();
+    let rec = log::Record::builder().args(format_args!("hello")).level(ll(lvl)).target(TARGET)
+        .file(if have & 1 != 0 { Some(FILE) } else { None }).line(if have & 2 != 0 { Some(7) } else { None }).module_path(if have & 4 != 0 { Some(MODP) } else { None }).build();
     let _ = crate::format_trace(&rec);
     assert!(s.events.load(SeqCst) == 1, "C18.normalize.one_event");
-    assert!(s.norm.load(SeqCst) == 1, "C18.normalize.metadata_carries_the_records_target_level_file_line_module");
+    assert!(s.norm.load(SeqCst) == 1, "C18.normalize.metadata_carries_the_records_target_level_and_exactly_the_location_parts_it_had");
 }
